@@ -95,7 +95,7 @@ def runCase (j : Json) : E Json := do
       NumOps.lt (NumOps.abs (dotc c.p (matVec A c.p))) (NumOps.small : K)
   let nGuardB := count fun c =>
     !(NumOps.lt (norm c.r) (NumOps.small : K)) && NumOps.lt (NumOps.abs c.gamma) (NumOps.small : K)
-  let nGuardM := (mult.filter fun m => NumOps.lt (NumOps.abs m) (NumOps.small : K)).size
+  let nGuardM := (mult.filter fun m => NumOps.isZero m).size
   let nat (n : Nat) : Json := Json.num (Lean.JsonNumber.fromNat n)
   pure <| Json.mkObj [
     ("x", outCols res.x), ("r", outCols res.r), ("k", Json.num (Lean.JsonNumber.fromNat res.k)),
@@ -104,7 +104,7 @@ def runCase (j : Json) : E Json := do
     ("tol_eff", Json.arr (tolEff.map outScalar)),
     ("col_res", Json.arr colRes),
     ("branches", Json.mkObj [("mask_has_converged", nat nMask), ("safe_div_alpha", nat nGuardA),
-                             ("safe_div_beta", nat nGuardB), ("safe_div_mult", nat nGuardM)]),
+                             ("safe_div_beta", nat nGuardB), ("zero_mult", nat nGuardM)]),
     ("trace", Json.arr trace)]
 
 end
